@@ -689,6 +689,112 @@ fn run_op(w: &mut World, op: &Value) -> Value {
             let after = query(w);
             json!({"rounds": rounds, "differs": if differs.is_empty() { Value::Null } else { json!(differs) }, "trap": trap, "before": before, "after": after})
         }
+        "history" => {
+            use ic_btc_canister::runtime::verif_hooks as vh;
+            vh::set_performance_counter_step(0);
+            let spk = |k: &str| -> bitcoin::ScriptBuf {
+                match k {
+                    "A" => address(7).script_pubkey(),
+                    "B" => address(8).script_pubkey(),
+                    "OP_RETURN" => bitcoin::ScriptBuf::from_bytes(vec![0x6a, 0x01, 0x42]),
+                    _ => bitcoin::ScriptBuf::from_bytes(vec![0x51]),
+                }
+            };
+            // label -> real transaction
+            let mut txs: BTreeMap<u64, bitcoin::Transaction> = BTreeMap::new();
+            let mk_tx = |txs: &BTreeMap<u64, bitcoin::Transaction>, label: u64, inputs: Vec<(u64, u32)>, kinds: Vec<String>| -> bitcoin::Transaction {
+                let input = if inputs.is_empty() {
+                    vec![bitcoin::TxIn { previous_output: bitcoin::OutPoint::null(), script_sig: bitcoin::ScriptBuf::new(), sequence: bitcoin::Sequence(0xffffffff), witness: bitcoin::Witness::new() }]
+                } else {
+                    inputs.iter().map(|(t, v)| bitcoin::TxIn { previous_output: bitcoin::OutPoint { txid: txs[t].compute_txid(), vout: *v },
+                        script_sig: bitcoin::ScriptBuf::new(), sequence: bitcoin::Sequence(0xffffffff), witness: bitcoin::Witness::new() }).collect()
+                };
+                bitcoin::Transaction { version: bitcoin::transaction::Version(1), lock_time: bitcoin::absolute::LockTime::from_consensus(label as u32), input,
+                    output: kinds.iter().enumerate().map(|(i, k)| bitcoin::TxOut { value: bitcoin::Amount::from_sat(1000 * label + i as u64), script_pubkey: spk(k) }).collect() }
+            };
+            let mk_block = |prev: &Header, list: Vec<bitcoin::Transaction>| -> Block {
+                let mut b = BlockBuilder::with_prev_header(*prev);
+                for t in list { b = b.with_transaction(t); }
+                let mut blk = Block::new(b.build());
+                blk.mock_difficulty = Some(1);
+                blk
+            };
+            ic_btc_canister::init(InitConfig { stability_threshold: Some(1), network: Some(Network::Regtest), api_access: Some(Flag::Enabled),
+                disable_api_if_not_fully_synced: Some(Flag::Disabled), ..Default::default() });
+            let mut prev = with_state(|s| *unstable_blocks::get_main_chain(&s.unstable_blocks).tip().block().header());
+            // stable prefix: heights 1.. : tx 1 (two outputs) three blocks below the anchor, tx 2 one block below
+            let stable = op["stable"].as_array().unwrap();
+            let kinds_of = |t: u64| -> Vec<String> { stable.iter().filter(|x| x[0].as_u64() == Some(t)).map(|x| x[2].as_str().unwrap().to_string()).collect() };
+            let t1 = mk_tx(&txs, 1, vec![], kinds_of(1)); txs.insert(1, t1.clone());
+            let t2 = mk_tx(&txs, 2, vec![], kinds_of(2)); txs.insert(2, t2.clone());
+            let mut prefix = vec![];
+            let b = mk_block(&prev, vec![t1]); prev = *b.header(); prefix.push(b);
+            let b = mk_block(&prev, vec![mk_tx(&txs, 900, vec![], vec!["".to_string()])]); prev = *b.header(); prefix.push(b);
+            let b = mk_block(&prev, vec![t2]); prev = *b.header(); prefix.push(b);
+            // history blocks
+            let parents: Vec<u64> = op["parents"].as_array().unwrap().iter().map(|x| x.as_u64().unwrap()).collect();
+            let n = parents.len() as u64 + 1;
+            let mut hist_blocks: BTreeMap<u64, Block> = BTreeMap::new();
+            let mut trap: Option<String> = None;
+            let mut steps = vec![];
+            let label_of = |txs: &BTreeMap<u64, bitcoin::Transaction>, txid: &str| -> Value {
+                for (l, t) in txs.iter() { if t.compute_txid().to_string() == txid { return json!(l); } }
+                json!(txid)
+            };
+            for id in 1..=n {
+                let parent_hdr = if id == 1 { prev } else { match hist_blocks.get(&parents[(id - 2) as usize]) { Some(b) => *b.header(), None => continue } };
+                let mut list = vec![];
+                let cbk = vec![if id % 2 == 1 { "A".to_string() } else { "B".to_string() }];
+                let cb = mk_tx(&txs, 200 + id, vec![], cbk); txs.insert(200 + id, cb.clone()); list.push(cb);
+                for t in op["content"][id.to_string()].as_array().map(|a| a.clone()).unwrap_or_default() {
+                    let l = t.as_u64().unwrap();
+                    let spec = &op["pool"][l.to_string()];
+                    let ins: Vec<(u64, u32)> = spec[0].as_array().unwrap().iter().map(|i| (i[0].as_u64().unwrap(), i[1].as_u64().unwrap() as u32)).collect();
+                    let kinds: Vec<String> = spec[1].as_array().unwrap().iter().map(|k| k.as_str().unwrap().to_string()).collect();
+                    let tx = mk_tx(&txs, l, ins, kinds);
+                    txs.insert(l, tx.clone());
+                    list.push(tx);
+                }
+                let blk = mk_block(&parent_hdr, list);
+                hist_blocks.insert(id, blk.clone());
+                w.blocks.insert(id, blk.clone());
+                let r = catch_unwind(AssertUnwindSafe(|| {
+                    if id == 1 {
+                        for b in prefix.iter() { with_state_mut(|s| unstable_blocks::push(&mut s.unstable_blocks, &s.utxos, b.clone()).unwrap()); }
+                    }
+                    let pushed = with_state_mut(|s| unstable_blocks::push(&mut s.unstable_blocks, &s.utxos, blk.clone()));
+                    if pushed.is_err() { return false; }
+                    with_state_mut(state::ingest_stable_blocks_into_utxoset);
+                    if id == 1 {
+                        with_state_mut(|s| s.unstable_blocks.set_stability_threshold(op["threshold"].as_u64().unwrap_or(1) as u32));
+                    }
+                    true
+                }));
+                match r {
+                    Err(e) => { trap = Some(e.downcast_ref::<String>().cloned().or_else(|| e.downcast_ref::<&str>().map(|s| s.to_string())).unwrap_or_default()); break; }
+                    Ok(false) => { hist_blocks.remove(&id); continue; }
+                    Ok(true) => {}
+                }
+                let q = |a: u64| -> Value {
+                    match ic_btc_canister::get_utxos(GetUtxosRequest { address: w.addr_string(a), network: NetworkInRequest::Regtest, filter: None }) {
+                        Ok(r) => json!({"tip": block_id_of(w, &r.tip_block_hash), "tip_height": r.tip_height,
+                                        "utxos": r.utxos.iter().map(|x| json!([label_of(&txs, &x.outpoint.txid.to_string()), x.outpoint.vout, x.value, x.height])).collect::<Vec<_>>()}),
+                        Err(e) => json!({"err": format!("{:?}", e)}),
+                    }
+                };
+                let bal = |a: u64| ic_btc_canister::get_balance(GetBalanceRequest { address: w.addr_string(a), network: NetworkInRequest::Regtest, min_confirmations: None }).ok();
+                let hashes = with_state(|s| unstable_blocks::get_block_hashes(&s.unstable_blocks));
+                let (txo, added, removed, tips, cached) = with_state(|s| unstable_blocks::verif_bookkeeping(&s.unstable_blocks));
+                let mut tipsv = tips.clone(); tipsv.sort();
+                let ids = |v: &Vec<ic_btc_types::BlockHash>| { let mut x: Vec<Value> = v.iter().map(|h| block_id_of(w, &h.to_vec())).collect(); x.sort_by_key(|a| a.as_u64().unwrap_or(u64::MAX)); x };
+                let book = json!({"tx_outs": txo.iter().map(|(o, c)| json!([label_of(&txs, &o.txid.to_string()), o.vout, c])).collect::<Vec<_>>(),
+                                  "added": ids(&added), "removed": ids(&removed), "tips": tipsv, "cached": ids(&cached)});
+                steps.push(json!({"after": id, "book": book, "tree": hashes.iter().map(|h| block_id_of(w, &h.to_vec())).collect::<Vec<_>>(),
+                                  "stable_height": with_state(|s| s.stable_height()), "A": q(7), "B": q(8), "balance_A": bal(7), "balance_B": bal(8),
+                                  "fees": ic_btc_canister::get_current_fee_percentiles(ic_btc_interface::GetCurrentFeePercentilesRequest { network: NetworkInRequest::Regtest })}));
+            }
+            json!({"trap": trap, "steps": steps})
+        }
         "tree" => {
             let hashes = with_state(|s| unstable_blocks::get_block_hashes(&s.unstable_blocks));
             json!({"blocks": hashes.iter().map(|h| block_id_of(w, &h.to_vec())).collect::<Vec<_>>(),
